@@ -36,6 +36,15 @@ CHECKS = {
         "note": NOTE_COMMON,
         "technique": "Coq proof over an explicit heap model (simulation to the pure tracer) + history replay correspondence",
     },
+    "C17": {
+        "text": "The property is finite (wrappers x kernel kinds). Theorems: the policy matrix is the documented vocabulary, and a passing "
+                "finite check over reflected tables implies acceptance = policy for every wrapper and kind. On every run the dialect groups and "
+                "every public wrapper with its statement's dialect are reflected from the live objects (new wrappers are picked up), the finite "
+                "lemma is re-proved by vm_compute, and for every wrapper x decorator a one-statement kernel is actually defined and "
+                "accept/reject compared with the matrix; the tracer's type guard is exercised on all four code kinds.",
+        "note": NOTE_COMMON + " Argument synthesis for a wrapper can fail; such pairs are reported as 'acceptance side not exercised'.",
+        "technique": "reflected finite tables + Coq vm_compute lemmas + exhaustive definition of one-statement kernels",
+    },
     "C18": {
         "text": "All lattice laws (reflexive, transitive, antisymmetric order; bottom/top; join/meet commutative, idempotent, "
                 "upper/lower bounds, consistent with the order) are Coq theorems by structural induction over ALL elements of any "
